@@ -10,12 +10,15 @@ Import ListNotations.
 Open Scope string_scope.
 Open Scope list_scope.
 
-Definition RD : program :=
+(* `is_payload_marked` (whether a payload is deserialised raw) is ANY function definition of that name: the theorem about `merge`
+   assumes of it only that it answers a boolean depending on the payload (an oracle, Section Merge below) *)
+Definition RDM (fd : fn_def) : program :=
   replydata_fns ++
   [stub "extern::as_data_field" ["variant"] (EField (EVar "variant") "data_field");
    stub "extern::validate_fields_attributes" ["variant"] (EConst VUnit);
    stub "extern::assert_no_redundant_params" ["payload"] (EConst VUnit);
-   stub "extern::is_payload_marked" ["payload"] (ECon "is_payload_marked" [EVar "payload"])].
+   fd].
+Definition RD : program := RDM (stub "extern::is_payload_marked" ["payload"] (ECon "is_payload_marked" [EVar "payload"])).
 
 (* a handler as the reply table sees it: its name, the outcome it is declared for, its fields (after the context), the field it
    marks as data (if any) *)
@@ -77,13 +80,13 @@ Proof. destruct l as [|a r]; reflexivity. Qed.
 (* For EVERY handler - any number of fields, with or without a data field, declared for any outcome - the entry it opens for its
    reply id has: the handler itself with its outcome as the only handler, its data field, the payload above, and the diagnostic
    "Missing payload parameter." exactly when that payload is empty *)
-Theorem translated_reply_data_new d id hid name (o : outcome) (fields : list value) (data : option value) :
-  calls RD (S (S d)) "ReplyData::new" [id; handler_v name o fields data; hid] (CVal (reply_data_v id hid name o fields data)).
+Theorem translated_reply_data_new_gen fd d id hid name (o : outcome) (fields : list value) (data : option value) :
+  calls (RDM fd) (S (S d)) "ReplyData::new" [id; handler_v name o fields data; hid] (CVal (reply_data_v id hid name o fields data)).
 Proof.
   set (params := [("reply_id", id); ("variant", handler_v name o fields data); ("handler_id", hid)]).
   (* the handlers whose payload is all their fields *)
   assert (Hplain : data = None /\ o = OSuccess ->
-          calls RD (S (S d)) "ReplyData::new" [id; handler_v name o fields data; hid] (CVal (reply_data_v id hid name o fields data))).
+          calls (RDM fd) (S (S d)) "ReplyData::new" [id; handler_v name o fields data; hid] (CVal (reply_data_v id hid name o fields data))).
   { intros [-> ->]. unfold reply_data_v, payload_of.
     destruct fields as [|f0 fs];
       (eapply calls_intro with (c := CVal _); try reflexivity;
@@ -94,7 +97,7 @@ Proof.
        simpl fn_body; cbn [app combine fn_params]; fold params;
        match goal with |- context [EFor "sk_i1" ?lo ?hi ?b] =>
          match goal with |- evals _ _ _ _ (CVal (reply_data_v _ _ _ ?oo _ ?dd), _) =>
-           destruct (ev_for_inv RD (S d) "sk_i1" b
+           destruct (ev_for_inv (RDM fd) (S d) "sk_i1" b
                        (fun j en' => en' = ("sk_acc1", VArr (skipn 1 (firstn j fields))) :: ("sk_src1", VArr fields) :: ("payload", VArr fields) ::
                                            ("data", match dd with Some f => some f | None => none end) :: ("__diags", VArr []) :: params)
                        (length fields - 1) 1
@@ -139,3 +142,7 @@ Proof.
              | reflexivity ]
          | reflexivity ].
 Qed.
+
+Theorem translated_reply_data_new d id hid name (o : outcome) (fields : list value) (data : option value) :
+  calls RD (S (S d)) "ReplyData::new" [id; handler_v name o fields data; hid] (CVal (reply_data_v id hid name o fields data)).
+Proof. apply translated_reply_data_new_gen. Qed.
